@@ -494,6 +494,9 @@ func Generate(seed uint64, opt GenOptions) *Scenario {
 					if g.chance(0.15) {
 						f.K = g.r.IntN(60)
 					}
+					if g.chance(0.08) {
+						f.Model, f.K = "pre", 0
+					}
 					switch op.Ctx {
 					case "deadline":
 						f.Err = "deadline"
